@@ -17,6 +17,31 @@ FRESH_ATTR_CALLS = {"deepcopy", "copy", "join", "upper", "lower", "strip", "spli
 NUMPY_NAMES = {"np", "numpy", "math", "cp", "copy", "itertools", "rng", "os", "plt", "matplotlib", "time", "t", "sys", "zlib"}
 
 
+def _none_test(test, params):
+    """`p is None` -> 'body' ; `p is not None` -> 'orelse' (the side that runs when p is None), for p in params"""
+    if isinstance(test, ast.Compare) and len(test.ops) == 1 and isinstance(test.left, ast.Name) and test.left.id in params \
+            and isinstance(test.comparators[0], ast.Constant) and test.comparators[0].value is None:
+        if isinstance(test.ops[0], (ast.Is, ast.Eq)):
+            return "body"
+        if isinstance(test.ops[0], (ast.IsNot, ast.NotEq)):
+            return "orelse"
+    if isinstance(test, ast.UnaryOp) and isinstance(test.op, ast.Not):
+        inner = _none_test(test.operand, params)
+        if inner is not None:
+            return "orelse" if inner == "body" else "body"
+    return None
+
+
+def _has_none_test(f, p):
+    # the parameter must never be rebound, or "was not supplied" says nothing about later tests
+    for n in ast.walk(f.node):
+        if isinstance(n, (ast.Assign, ast.AugAssign, ast.For, ast.NamedExpr, ast.AnnAssign)):
+            ts = n.targets if isinstance(n, ast.Assign) else [n.target]
+            if any(isinstance(x, ast.Name) and x.id == p for t in ts for x in ast.walk(t)):
+                return False
+    return any(isinstance(n, ast.If) and _none_test(n.test, {p}) is not None for n in ast.walk(f.node))
+
+
 class Summary:
     def __init__(self, f):
         self.f = f
@@ -37,12 +62,28 @@ class Effects:
         self.prog = prog
         self.cut = set(cut)
         self.sum = {}
+        # second variant per function: the summary of a call that supplies none of the function's optional (default None) arguments -
+        # branches guarded by `<param> is not None` are then dead, and so are the calls and writes inside them (FCR() never reaches
+        # charge_at_pH; FCR(pH) does).  Call edges pick the variant from the arguments actually passed.
+        self.sum0 = {}
+        self.opt_params = {}
         for f in prog.all_funcs():
             self.sum[f.key] = self._local(f)
+            gp = frozenset(p for p, v in f.defaults().items() if isinstance(v, ast.Constant) and v.value is None)
+            gp = frozenset(p for p in gp if _has_none_test(f, p))
+            self.opt_params[f.key] = gp
+            self.sum0[f.key] = self._local(f, skip=gp) if gp else self.sum[f.key]
         self._close()
 
+    def variant(self, callee_key, passed):
+        """summary of callee as called with the given formal names bound explicitly"""
+        gp = self.opt_params.get(callee_key, frozenset())
+        if gp and not (gp & set(passed)):
+            return self.sum0.get(callee_key)
+        return self.sum.get(callee_key)
+
     # ------------------------------------------------------------------ local pass
-    def _local(self, f):
+    def _local(self, f, skip=frozenset()):
         s = Summary(f)
         prog = self.prog
         params = f.params()
@@ -171,6 +212,15 @@ class Effects:
                 if isinstance(st, (ast.FunctionDef, ast.ClassDef)):
                     flow(st.body, dict(env)) if isinstance(st, ast.FunctionDef) else None
                     continue
+                if skip and isinstance(st, ast.If):
+                    nt = _none_test(st.test, skip)
+                    if nt is not None:
+                        # the optional argument was not supplied: only the `is None` side runs
+                        live = st.body if nt == "body" else st.orelse
+                        flow(live, env)
+                        if live and isinstance(live[-1], (ast.Return, ast.Raise)):
+                            return          # what follows is reached only when the argument was supplied
+                        continue
                 if isinstance(st, ast.Assign):
                     scan_expr(st.value, env, st)
                     val = origins(st.value, env)
@@ -259,9 +309,10 @@ class Effects:
         while changed and rounds < 30:
             changed = False
             rounds += 1
-            for s in self.sum.values():
+            every = list({id(x): x for x in list(self.sum.values()) + list(self.sum0.values())}.values())
+            for s in every:
                 for callee, recv, amap, node in s.calls:
-                    cs = self.sum.get(callee.key)
+                    cs = self.variant(callee.key, amap)
                     if cs is None or callee.key in self.cut:
                         continue
                     where = s.f.loc(node)
@@ -314,8 +365,8 @@ class Effects:
                 new = set()
                 for o in s.returns:
                     if isinstance(o, tuple):
-                        cs = self.sum.get(o[1])
                         call = next((c for c in s.calls if id(c[3]) == o[2]), None)
+                        cs = self.variant(o[1], call[2]) if call is not None else None
                         if cs is None or call is None:
                             continue
                         for r in cs.returns:
@@ -371,7 +422,7 @@ class Effects:
         out = {}
         for callee, recv, amap, node in s.calls:
             if ("self." + through_attr) in recv:
-                cs = self.sum.get(callee.key)
+                cs = self.variant(callee.key, amap)
                 if cs:
                     for a, k in cs.self_writes.items():
                         out.setdefault(a, set()).update(k)
